@@ -11,16 +11,28 @@
             [base] a directory path ending in "/" and [root] the entries of that directory (the
             model's selected set is parametric in the base path; the code concatenates base and
             names in the same way).
+    CRep  : every run, whatever was done to it (nothing, an injected callback / listing error, a
+            Kill or Error event of the scope the loop is attached to, raised from a callback or from
+            outside the walk at any point of it).  Carries what the caller holds after Wait():
+            the callbacks made, the LENGTH of Loop.Errors() read right after Wait() (capped at 9),
+            and whether a callback / listing failure was returned to the loop.  The relation is
+            [Model.LoopRep.rep_ok]: an empty error list => callbacks = selected set and nothing
+            failed; otherwise callbacks within the selected set.  [Proofs/LoopRep.v] shows that the
+            model's own (length (reported s), log s) satisfies it on every schedule once Wait has
+            returned, Kill events of the environment included (C08_reported_decides).  This is the
+            tie of [reported] (= Loop.Errors()) to the code.
     CSched: schedule replay.  The model is run on the given schedule; whether all consumers exited
             and the multiset of callbacks must equal what the implementation did when the same
             interleaving was forced through the gated source and the verif hook points. *)
-From GC Require Import Common.Base Model.Loop.
+From GC Require Import Common.Base Model.Loop Model.LoopRep.
 
 Inductive case :=
 | CSel (root : list tree) (hasdf hasff ondir onfile : bool) (facc dacc : list path) (obs : list item)
 | CSub (root : list tree) (hasdf hasff ondir onfile : bool) (facc dacc : list path) (obs : list item)
 | CSelAt (base : path) (root : list tree) (hasdf hasff ondir onfile : bool) (facc dacc : list path) (obs : list item)
 | CSubAt (base : path) (root : list tree) (hasdf hasff ondir onfile : bool) (facc dacc : list path) (obs : list item)
+| CRep (base : path) (root : list tree) (hasdf hasff ondir onfile : bool) (facc dacc : list path)
+       (nrep : nat) (failed : bool) (obs : list item)
 | CSched (cte : bool) (root : list tree) (cm pm : nat) (sched : list tid) (exited : bool) (obs : list item).
 
 Definition ROOT : path := [46; 47].   (* Run("") walks "./" *)
@@ -47,6 +59,9 @@ Definition check (c : case) : bool :=
     perm_b obs (sel_list (cfg_of hasdf hasff ondir onfile facc dacc) base root) && wf_list root
   | CSubAt base root hasdf hasff ondir onfile facc dacc obs =>
     sub_b obs (sel_list (cfg_of hasdf hasff ondir onfile facc dacc) base root)
+  | CRep base root hasdf hasff ondir onfile facc dacc nrep failed obs =>
+    rep_ok nrep failed obs (sel_list (cfg_of hasdf hasff ondir onfile facc dacc) base root)
+    && match nrep with O => wf_list root | S _ => true end
   | CSched cte root cm pm sched exited obs =>
     let cfg := mkCfg (fun _ => true) (fun _ => true) false true true (fun _ => false) (fun _ => false)
                      pm cm 1000%nat 1000%nat (if cte then ClosedThenEmpty else EmptyThenClosed) in
